@@ -289,16 +289,22 @@ struct Inst
   }
   void err(const Error& e)
   {
-    std::lock_guard<std::recursive_mutex> lg(g_out_mtx);
     int c = (int)e.error_code;
-    if (c == ERRCODE_PCAPEXIT || c == ERRCODE_PCAPREPEAT || c == ERRCODE_MSOPTIMEOUT || c == ERRCODE_PCAPWRONGPATH || c == ERRCODE_STARTBEFOREINIT)
+    bool hold = false;
     {
-      if (c == ERRCODE_PCAPREPEAT && g_pcap_repeat >= 2) return;     // the harness stops after two rounds
-      fprintf(OUT, "ierr %d %d\n", idx, c);
-      if (c == ERRCODE_PCAPEXIT) g_pcap_exit++;
-      if (c == ERRCODE_PCAPREPEAT) g_pcap_repeat++;
+      std::lock_guard<std::recursive_mutex> lg(g_out_mtx);
+      if (c == ERRCODE_PCAPEXIT || c == ERRCODE_PCAPREPEAT || c == ERRCODE_MSOPTIMEOUT || c == ERRCODE_PCAPWRONGPATH || c == ERRCODE_STARTBEFOREINIT)
+      {
+        fprintf(OUT, "ierr %d %d\n", idx, c);
+        if (c == ERRCODE_PCAPEXIT) g_pcap_exit++;
+        if (c == ERRCODE_PCAPREPEAT && ++g_pcap_repeat >= 2) hold = true;
+      }
+      else fprintf(OUT, "err %d %d\n", idx, c);
     }
-    else fprintf(OUT, "err %d %d\n", idx, c);
+    // after the second replay announcement: keep the reading thread here until stop() asks it to exit,
+    // so that exactly two rounds are read (the callback runs in the reading thread)
+    if (hold)
+      while (!drv->driver_ptr_->input_ptr_->to_exit_recv_) std::this_thread::sleep_for(std::chrono::milliseconds(1));
   }
 };
 
